@@ -56,7 +56,9 @@ def _convert_var_specs(
                     lo=float(spec[0]), hi=float(spec[1]), steps=10
                 )
             else:
-                processed[var] = SequenceSpec(spec)
+                # private copy: later edits of the caller's configuration must not
+                # reach the built sweep (values, published keys, identities)
+                processed[var] = SequenceSpec(list(spec))
             continue
         if not isinstance(spec, dict):
             raise ValueError(f"Variable '{var}' must be a list or dict specification")
@@ -76,7 +78,7 @@ def _convert_var_specs(
             )
             continue
         if "values" in spec:
-            processed[var] = SequenceSpec(spec["values"])
+            processed[var] = SequenceSpec(list(spec["values"]))
             continue
         raise ValueError(f"Invalid var specification for '{var}': {spec}")
     return processed
